@@ -37,9 +37,12 @@ TEMPLATES = {
     "maclib": "{% macro em(v) %}<b>{{ v }}</b>{{ f('m') }}{{ v }}{% endmacro %}",
     "pg.html": "{% import 'maclib' as l %}{{ l.em('<' ~ x) }}|{{ '<' ~ x }}",
     "ml.txt": "{% import 'maclib' as l %}{{ l.em('<' ~ x) }}|{{ '<' ~ x }}",
+    # a namespace seeded from a dict that lives in a cached imported module (must be a private copy per render)
+    "nslib": "{% set cfg = {'k': 'v'} %}{% macro show() %}{{ cfg|dictsort }}{% endmacro %}",
+    "nsimp": "{% import 'nslib' as l %}{% set ns = namespace(l.cfg) %}{% set ns.k = x %}{% set ns.extra = x %}{{ f('n') }}{{ ns.k }}{{ l.cfg|dictsort }}{{ l.show() }}",
     "impae": "{% import 'libae' as l %}{{ l.am('<' ~ x, x == 1) }}{{ '<' }}",
 }
-POOL = ["imp", "fromctx", "loopns", "macro", "child", "volatile", "incl", "impae", "pg.html", "ml.txt"]
+POOL = ["imp", "fromctx", "loopns", "macro", "child", "volatile", "incl", "impae", "pg.html", "ml.txt", "nsimp"]
 # small templates (<= 2 gates) for the 3-task harnesses: the interleaving tree of three 5-step tasks has 756756 leaves
 TEMPLATES.update({
     "slib": "{% set v = f('L') %}{% macro sm() %}{{ v }}{{ x }}{% endmacro %}",
